@@ -406,7 +406,11 @@ def _substructure_rows(V):
     before = {id(a): list(r) for a, r in zip(atoms, m.fields["_coords"].data)}
     v1 = [V.sym(f"v1{k}", "real") for k in range(3)]
     v2 = [V.sym(f"v2{k}", "real") for k in range(3)]
-    V.witness(lambda ev: {"op": "substructure-after-del", "signature": "substructure-after-del"})
+    # the molecule's atoms may also sit in another (non-copying) container: the selection is still rows 2 and 3 of THIS molecule
+    shared = V.choose([False, True], "atoms-also-in-another-container")
+    if shared:
+        V.keep = M.share_atoms(V, m)
+    V.witness(lambda ev: {"op": "substructure-after-del", "shared": shared, "signature": "substructure-after-del" + ("/shared-atoms" if shared else "")})
     V.cover()
     sub = V.method(m, "substructure", [ListV([atoms[2], atoms[3]])])
     V.ensure("sub/created", z3.BoolVal(sub.returned))
